@@ -26,6 +26,9 @@ func TestMain(m *testing.M) { vlib.Main(m, prop) }
 type session struct {
 	Steps []string `json:"steps_hex"`
 	Names []string `json:"names"`
+	// End: how the client leaves after its last step: "" = half-close, "reset" = abort.
+	// A protocol-level goodbye (QUIT, unbind, ^D ...) is an ordinary last step.
+	End string `json:"end,omitempty"`
 }
 
 type isoCase struct {
@@ -38,6 +41,70 @@ type isoCase struct {
 	PortSpread int `json:"port_spread"`
 	// the vocabulary the sessions share (informational; the steps carry the bytes)
 	Shared map[string][]string `json:"shared,omitempty"`
+	// Fams: address family of each session's client address (see clientIP); missing = famV4
+	Fams []int `json:"fams,omitempty"`
+	// Prefix >0: the first Prefix sessions are a history (each runs to completion and is
+	// ended before the next one starts); the remaining ones overlap as Order says
+	Prefix int `json:"prefix,omitempty"`
+	// EarlyClose: an overlapping session is ended as soon as its last step is done
+	// instead of staying open until every session is through
+	EarlyClose bool `json:"early_close,omitempty"`
+}
+
+// Address families a client may come from. The host part is the session slot, so two
+// sessions of a case are always different hosts whatever their families.
+const (
+	famV4          = iota // 10.77.s.9 in the 16-byte form net.IPv4 builds (what dual-stack sockets report)
+	famV4Short            // 10.77.s.9 in the 4-byte form (tcp4 / udp4 sockets)
+	famV6Global           // 2001:db8:77:s::9
+	famV6LinkLocal        // fe80::77:s:9
+	famV6ULA              // fd00:77::s:9
+	nFam
+)
+
+var famNames = []string{"v4", "v4-short", "v6-global", "v6-link-local", "v6-ula"}
+
+func clientIP(slot, fam int) net.IP {
+	h := byte(slot + 1)
+	switch fam {
+	case famV4Short:
+		return net.IPv4(10, 77, h, 9).To4()
+	case famV6Global:
+		return net.IP{0x20, 0x01, 0x0d, 0xb8, 0, 0x77, 0, h, 0, 0, 0, 0, 0, 0, 0, 9}
+	case famV6LinkLocal:
+		return net.IP{0xfe, 0x80, 0, 0, 0, 0, 0, 0, 0, 0, 0, 0x77, 0, h, 0, 9}
+	case famV6ULA:
+		return net.IP{0xfd, 0, 0, 0x77, 0, 0, 0, 0, 0, 0, 0, 0, 0, h, 0, 9}
+	}
+	return net.IPv4(10, 77, h, 9)
+}
+
+func (c isoCase) fam(i int) int {
+	if i < len(c.Fams) {
+		return c.Fams[i]
+	}
+	return famV4
+}
+
+// genFams draws the address families of k sessions: all of the usual kind, all of one
+// drawn kind, or one drawn per session.
+func genFams(t *rapid.T, k int) []int {
+	switch rapid.IntRange(0, 3).Draw(t, "fam-mode") {
+	case 0:
+		return nil
+	case 1:
+		f := rapid.IntRange(0, nFam-1).Draw(t, "fam-all")
+		out := make([]int, k)
+		for i := range out {
+			out[i] = f
+		}
+		return out
+	}
+	out := make([]int, k)
+	for i := range out {
+		out[i] = rapid.IntRange(0, nFam-1).Draw(t, "fam")
+	}
+	return out
 }
 
 type result struct {
@@ -69,10 +136,47 @@ func runSessions(c isoCase, which []int, order []int) (map[int]*result, error) {
 // runSessionsLive also returns a function that re-collects the results (event pumps and
 // datagram handlers are asynchronous and have no completion signal) and one that stops
 // the instance.
+// patience bounds what one run spends on waits that expire. Every wait is generous; when
+// the server really has stopped answering a connection (a reply went to another client,
+// a datagram was dropped) each further step of a long history would sit out the full
+// bound again, so after a few expired waits the remaining ones of that run are cut to a
+// tenth. An expired wait is never a verdict: only bytes and events are compared, and
+// checkIso re-collects them after a long quiet period when any wait expired.
+type patience struct{ left time.Duration }
+
+var expiredWaits int // waits that expired since checkIso started (runs are sequential)
+
+func (p *patience) bound(d time.Duration) time.Duration {
+	if p.left <= 0 {
+		return d / 10
+	}
+	return d
+}
+
+func (p *patience) expired(d time.Duration) {
+	p.left -= d
+	expiredWaits++
+}
+
 func runSessionsLive(c isoCase, which []int, order []int) (map[int]*result, func() map[int]*result, func(), error) {
 	in, err := svc.StartInstance([]string{c.Service})
 	if err != nil {
 		return nil, nil, nil, fmt.Errorf("infra: %v", err)
+	}
+	pat := &patience{left: 12 * time.Second}
+	waitIdle := func(cn *lab.Conn) {
+		d := pat.bound(svc.StepTimeout)
+		if cn.WaitIdle(d) == lab.Busy {
+			pat.expired(d)
+		}
+	}
+	waitClosed := func(cn *lab.Conn) bool {
+		d := pat.bound(10 * time.Second)
+		ok := cn.WaitClosed(d)
+		if !ok {
+			pat.expired(d)
+		}
+		return ok
 	}
 	type live struct {
 		se  *svc.Session
@@ -83,9 +187,9 @@ func runSessionsLive(c isoCase, which []int, order []int) (map[int]*result, func
 		sc := &svc.Script{Service: c.Service, UDP: c.UDP,
 			// fixed, distinct client addresses per session slot so alone/interleaved runs are comparable
 			// same source port from different hosts (ephemeral ports repeat across hosts)
-			SrcIP: net.IPv4(10, 77, byte(i+1), 9), SrcPort: 41000 + (i%2)*(c.PortSpread)}
+			SrcIP: clientIP(i, c.fam(i)), SrcPort: 41000 + (i%2)*(c.PortSpread), End: c.Sessions[i].End}
 		for _, h := range c.Sessions[i].Steps {
-			sc.Steps = append(sc.Steps, svc.Step{Data: vlib.UnHex(h), Wait: true})
+			sc.Steps = append(sc.Steps, svc.Step{Data: vlib.UnHex(h)}) // the lock-step wait is done here, see waitIdle
 		}
 		sess[i] = &live{idx: i}
 		sess[i].se = nil
@@ -101,7 +205,7 @@ func runSessionsLive(c isoCase, which []int, order []int) (map[int]*result, func
 		if opened[i] == nil {
 			opened[i] = in.Open(l.se.Script)
 			if !c.UDP {
-				opened[i].Conn.WaitIdle(svc.StepTimeout) // greeting written, server waiting
+				waitIdle(opened[i].Conn) // greeting written, server waiting
 			}
 		}
 		before := 0
@@ -112,18 +216,24 @@ func runSessionsLive(c isoCase, which []int, order []int) (map[int]*result, func
 		if c.UDP {
 			// datagram handlers have no completion signal: wait for the reply (all steps of the UDP grammars elicit one) or a short quiet period
 			d := opened[i].Dgrams[before]
-			deadline := time.Now().Add(5 * time.Second)
+			bound := pat.bound(5 * time.Second)
+			deadline := time.Now().Add(bound)
 			for len(d.Snapshot()) == 0 && time.Now().Before(deadline) {
 				time.Sleep(200 * time.Microsecond)
 			}
-			if len(d.Snapshot()) == 0 && os.Getenv("C03_DEBUG") != "" {
-				fmt.Fprintf(os.Stderr, "NOREPLY session %d step %d names=%v hex=%s\n", i, before, c.Sessions[i].Names, c.Sessions[i].Steps[before][:min(60, len(c.Sessions[i].Steps[before]))])
+			if len(d.Snapshot()) == 0 {
+				pat.expired(bound)
+				if os.Getenv("C03_DEBUG") != "" {
+					fmt.Fprintf(os.Stderr, "NOREPLY session %d step %d names=%v hex=%s\n", i, before, c.Sessions[i].Names, c.Sessions[i].Steps[before][:min(60, len(c.Sessions[i].Steps[before]))])
+				}
 			}
+		} else {
+			waitIdle(opened[i].Conn)
 		}
-		if c.History > 0 && opened[i].Done() {
+		if (c.History > 0 || i < c.Prefix || c.EarlyClose) && opened[i].Done() {
 			opened[i].Finish()
 			if !c.UDP {
-				opened[i].Conn.WaitClosed(10 * time.Second)
+				waitClosed(opened[i].Conn)
 			}
 		}
 	}
@@ -137,7 +247,7 @@ func runSessionsLive(c isoCase, which []int, order []int) (map[int]*result, func
 		}
 		se.Finish()
 		if !c.UDP {
-			r.Closed = se.Conn.WaitClosed(10 * time.Second)
+			r.Closed = waitClosed(se.Conn)
 		}
 	}
 	in.Cap.Settle(15*time.Millisecond, 400*time.Millisecond)
@@ -188,6 +298,7 @@ func checkIso(c isoCase) error {
 	for i := range all {
 		all[i] = i
 	}
+	expiredWaits = 0
 	// reference: each session alone on a fresh instance
 	alone := map[int]*result{}
 	var recollect []func()
@@ -233,6 +344,14 @@ func checkIso(c isoCase) error {
 		if last = compareIso(c, all, alone, together); last == nil {
 			return nil
 		}
+	}
+	if expiredWaits > 0 {
+		// some wait ran out: whatever was merely late has a long quiet period to arrive in
+		time.Sleep(4 * time.Second)
+		for _, f := range recollect {
+			f()
+		}
+		last = compareIso(c, all, alone, together)
 	}
 	return last
 }
@@ -343,7 +462,7 @@ func berCanon(b []byte) (out []byte, n int, ok bool) {
 }
 
 func clip(b []byte) string {
-	if len(b) > 260 {
+	if len(b) > 260 && os.Getenv("C03_DEBUG") == "" {
 		return string(b[:260]) + "..."
 	}
 	return string(b)
@@ -406,6 +525,7 @@ var vocabPools = map[string]map[string][]string{
 // genShared draws the vocabulary of one case: 1-3 words per kind, so that sessions
 // meet on the same words often.
 func genShared(t *rapid.T, service string) map[string][]string {
+	service, _ = transport(service)
 	pools := vocabPools[service]
 	kinds := make([]string, 0, len(pools))
 	for k := range pools {
@@ -467,7 +587,20 @@ func respArray(args ...string) []byte {
 	return b.Bytes()
 }
 
+// transport returns the configured service key and the transport of a grammar entry:
+// "memcached-udp" is the memcached service reached through its UDP port.
+func transport(service string) (key string, udp bool) {
+	switch service {
+	case "memcached-udp":
+		return "memcached", true
+	case "tftp":
+		return "tftp", true
+	}
+	return service, false
+}
+
 func genSession(t *rapid.T, service string, slot int, shared map[string][]string) session {
+	service, udp := transport(service)
 	m := fmt.Sprintf("m%dx%s", slot, rapid.StringMatching("[a-z]{3}").Draw(t, "marker"))
 	var s session
 	add := func(name string, wire []byte) {
@@ -607,6 +740,10 @@ func genSession(t *rapid.T, service string, slot int, shared map[string][]string
 			add(strings.Join(a, " "), respArray(a...))
 		}
 	case "memcached":
+		if udp && n > 4 {
+			// one command per datagram, at most 4 per source (the limiter's burst, see tftp)
+			n = 4
+		}
 		for i := 0; i < n; i++ {
 			switch rapid.SampledFrom([]string{"get", "get", "store", "store", "key", "flush", "stats", "version"}).Draw(t, "cmd") {
 			case "get":
@@ -618,7 +755,14 @@ func genSession(t *rapid.T, service string, slot int, shared map[string][]string
 			case "store":
 				c := rapid.SampledFrom([]string{"set", "set", "add", "replace", "append", "prepend", "cas"}).Draw(t, "storecmd")
 				val := arg("value", m)
-				line := fmt.Sprintf("%s %s %d %d %d", mostly(t, c), arg("key", m), rapid.SampledFrom([]int{0, 0, 1, 42}).Draw(t, "flags"), rapid.SampledFrom([]int{0, 0, 60}).Draw(t, "exp"), len(val))
+				name := c
+				if !udp {
+					// (over UDP a misspelt storage command makes the service take the data block for a
+					// second command of the same datagram: two limiter tokens, and events of two
+					// datagram handlers in no fixed order - the lone run would be no reference)
+					name = mostly(t, c)
+				}
+				line := fmt.Sprintf("%s %s %d %d %d", name, arg("key", m), rapid.SampledFrom([]int{0, 0, 1, 42}).Draw(t, "flags"), rapid.SampledFrom([]int{0, 0, 60}).Draw(t, "exp"), len(val))
 				if c == "cas" {
 					line += " 7"
 				}
@@ -729,10 +873,56 @@ func genSession(t *rapid.T, service string, slot int, shared map[string][]string
 			add("data", blk)
 		}
 	}
+	if udp {
+		if service == "memcached" {
+			// memcached's UDP frame header: request id, sequence number 0, 1 datagram in total, reserved
+			for i, h := range s.Steps {
+				id := rapid.Uint16().Draw(t, "reqid")
+				s.Steps[i] = vlib.Hex([]byte{byte(id >> 8), byte(id), 0, 0, 0, 1, 0, 0}) + h
+			}
+		}
+		return s
+	}
+	// how the client leaves: it just closes (half of the draws), says goodbye the way its
+	// protocol has it and then closes, or aborts the connection
+	switch rapid.SampledFrom([]string{"close", "close", "close", "bye", "bye", "bye", "bye+reset", "reset"}).Draw(t, "ending") {
+	case "bye":
+		genBye(t, service, m, add)
+	case "bye+reset":
+		genBye(t, service, m, add)
+		s.End = "reset"
+	case "reset":
+		s.End = "reset"
+	}
 	return s
 }
 
-var services = []string{"ldap", "ftp", "smtp", "telnet", "redis", "memcached", "http", "tftp"}
+// genBye appends the protocol's own way of ending a session as an ordinary last step.
+// Where the service does not implement one (redis, memcached, http keep the connection,
+// telnet's "exit" is a command like any other) it is still what clients send last.
+func genBye(t *rapid.T, service, m string, add func(string, []byte)) {
+	switch service {
+	case "ftp", "smtp":
+		add("QUIT", []byte(mostly(t, "QUIT")+"\r\n"))
+	case "telnet":
+		if rapid.Bool().Draw(t, "ctrl-d") {
+			add("^D", []byte{4})
+		} else {
+			add("line", []byte(rapid.SampledFrom([]string{"exit", "logout", "quit"}).Draw(t, "bye")+"\r\n"))
+		}
+	case "redis":
+		a := []string{mostly(t, "QUIT")}
+		add(a[0], respArray(a...))
+	case "memcached":
+		add("quit", []byte(mostly(t, "quit")+"\r\n"))
+	case "http":
+		add("GET", []byte(fmt.Sprintf("GET /%s HTTP/1.1\r\nHost: %s\r\nConnection: close\r\n\r\n", m, m)))
+	case "ldap":
+		add("unbind", svc.LDAPUnbind(99))
+	}
+}
+
+var services = []string{"ldap", "ftp", "smtp", "telnet", "redis", "memcached", "http", "tftp", "memcached-udp"}
 
 func merges(counts []int, limit int, emit func([]int) bool) {
 	total := 0
@@ -775,6 +965,44 @@ func alternations(order []int) int {
 	return n
 }
 
+func famLabel(c isoCase) []string {
+	out := make([]string, len(c.Sessions))
+	for i := range out {
+		out[i] = famNames[c.fam(i)]
+	}
+	return out
+}
+
+// countFams labels what the case covers: address families met, protocol goodbyes, aborts.
+func countFams(r *vlib.Run, test string, c isoCase) {
+	v6 := 0
+	for i := range c.Sessions {
+		if c.fam(i) >= famV6Global {
+			v6++
+		}
+	}
+	if v6 >= 2 {
+		r.Label(test+"/two-or-more-ipv6-clients", 1)
+	}
+	if v6 >= 1 && v6 < len(c.Sessions) {
+		r.Label(test+"/mixed-address-families", 1)
+	}
+	for i, s := range c.Sessions {
+		if len(s.Names) == 0 {
+			continue
+		}
+		switch s.Names[len(s.Names)-1] {
+		case "QUIT", "^D", "unbind", "quit":
+			if i < len(c.Sessions)-1 {
+				r.Label(test+"/earlier-session-said-goodbye", 1)
+			}
+		}
+		if s.End == "reset" {
+			r.Label(test+"/session-aborted", 1)
+		}
+	}
+}
+
 func TestInterleavings(t *testing.T) {
 	r := vlib.Open(prop)
 	var ic isoCase
@@ -784,12 +1012,15 @@ func TestInterleavings(t *testing.T) {
 		}
 		return
 	}
-	r.Rule("for ldap, ftp, smtp, telnet, redis, memcached, http, tftp: 2-3 scripted sessions (2-8 lock-step request/response steps, per-session marker strings next to a per-case vocabulary of 1-3 arguments per kind that all sessions share - INFO sections, keys, paths, hosts, user names, DNs, file names - each use in a drawn spelling: as is / upper / capitalised / mixed case; command names in drawn case too; distinct client addresses) on a FRESH server instance per run; a drawn interleaving of their steps plus, for small cases (<=7 steps in total), ALL merges; oracle = differential: bytes received and events recorded (by source address) for each session equal those of the same session alone on a fresh instance; one session id per connection, never shared; non-trivial = >=2 sessions mid-dialogue with >=1 alternation; distinct by sessions+order")
+	r.Rule("for ldap, ftp, smtp, telnet, redis, memcached (TCP and UDP), http, tftp: 2-3 scripted sessions (2-8 lock-step request/response steps, per-session marker strings next to a per-case vocabulary of 1-3 arguments per kind that all sessions share - INFO sections, keys, paths, hosts, user names, DNs, file names - each use in a drawn spelling: as is / upper / capitalised / mixed case; command names in drawn case too; distinct client hosts whose address family is drawn per case or per session: IPv4 in 16- and 4-byte form, IPv6 global / link-local / unique-local; each session ends as drawn: half-close, the protocol's own goodbye as last step, abort; in a quarter of the cases a session is ended as soon as it is through instead of after all) on a FRESH server instance per run; a drawn interleaving of their steps plus, for small cases (<=7 steps in total), ALL merges; oracle = differential: bytes received and events recorded (by source address) for each session equal those of the same session alone on a fresh instance; one session id per connection, never shared; non-trivial = >=2 sessions mid-dialogue with >=1 alternation; distinct by sessions+order")
 	r.Rapid(t, "TestInterleavings", r.Pick(70, 700), func(rt *rapid.T) {
 		service := rapid.SampledFrom(services).Draw(rt, "service")
-		c := isoCase{Service: service, UDP: service == "tftp", PortSpread: rapid.IntRange(0, 1).Draw(rt, "portspread")}
+		key, udp := transport(service)
+		c := isoCase{Service: key, UDP: udp, PortSpread: rapid.IntRange(0, 1).Draw(rt, "portspread")}
 		c.Shared = genShared(rt, service)
 		k := rapid.IntRange(2, 3).Draw(rt, "nsessions")
+		c.Fams = genFams(rt, k)
+		c.EarlyClose = !udp && rapid.IntRange(0, 3).Draw(rt, "early-close") == 0
 		var counts []int
 		total := 0
 		for i := 0; i < k; i++ {
@@ -814,7 +1045,10 @@ func TestInterleavings(t *testing.T) {
 			if alternations(order) >= 1 {
 				fp = vlib.JSON(cc)
 			}
-			r.Case("interleave/"+service, fp, func() interface{} { return map[string]interface{}{"names": [][]string{cc.Sessions[0].Names, cc.Sessions[1].Names}, "order": order} })
+			r.Case("interleave/"+service, fp, func() interface{} {
+				return map[string]interface{}{"names": [][]string{cc.Sessions[0].Names, cc.Sessions[1].Names}, "order": order, "families": famLabel(cc)}
+			})
+			countFams(r, "interleave", cc)
 			if err := checkIso(cc); err != nil {
 				if strings.HasPrefix(err.Error(), "infra:") {
 					rt.Fatalf("%v", err)
@@ -839,12 +1073,14 @@ func TestHistories(t *testing.T) {
 		}
 		return
 	}
-	r.Rule("sequential histories: N in 1..20 earlier sessions run to completion one after another on a fresh instance, then a probe session (same session grammar incl. the shared vocabulary in drawn spellings); oracle = the probe's bytes and events equal those of the probe alone on a fresh instance; non-trivial = >=1 earlier session that changed state (login / cwd / mail)")
+	r.Rule("sequential histories: N in 1..20 earlier sessions run to completion one after another on a fresh instance, then a probe session (same session grammar incl. the shared vocabulary in drawn spellings, drawn address families, drawn endings: half-close / protocol goodbye / abort); oracle = the probe's bytes and events equal those of the probe alone on a fresh instance; non-trivial = >=1 earlier session that changed state (login / cwd / mail)")
 	r.Rapid(t, "TestHistories", r.Pick(50, 500), func(rt *rapid.T) {
 		service := rapid.SampledFrom(services).Draw(rt, "service")
-		c := isoCase{Service: service, UDP: service == "tftp", PortSpread: rapid.IntRange(0, 1).Draw(rt, "portspread")}
+		key, udp := transport(service)
+		c := isoCase{Service: key, UDP: udp, PortSpread: rapid.IntRange(0, 1).Draw(rt, "portspread")}
 		n := rapid.OneOf(rapid.IntRange(1, 4), rapid.IntRange(1, 20)).Draw(rt, "nhistory")
 		c.History = n
+		c.Fams = genFams(rt, n+1)
 		c.Shared = genShared(rt, service)
 		for i := 0; i <= n; i++ {
 			s := genSession(rt, service, i, c.Shared)
@@ -853,7 +1089,10 @@ func TestHistories(t *testing.T) {
 				c.Order = append(c.Order, i)
 			}
 		}
-		r.Case("history/"+service, vlib.JSON(c), func() interface{} { return map[string]interface{}{"earlier_sessions": n, "probe": c.Sessions[n].Names} })
+		r.Case("history/"+service, vlib.JSON(c), func() interface{} {
+			return map[string]interface{}{"earlier_sessions": n, "probe": c.Sessions[n].Names, "families": famLabel(c)}
+		})
+		countFams(r, "history", c)
 		if err := checkIso(c); err != nil {
 			if strings.HasPrefix(err.Error(), "infra:") {
 				rt.Fatalf("%v", err)
@@ -861,4 +1100,81 @@ func TestHistories(t *testing.T) {
 			r.Fail(rt, "TestHistories", c, "%v", err)
 		}
 	})
+}
+
+// TestHistoryThenOverlap combines the two: a history of sessions that ended (each the way
+// it drew: plain close, the protocol's goodbye, abort) and then 2-3 sessions that are
+// open at the same time. What an ended session leaves behind on the shared service
+// object (pooled buffers, tables keyed by address, limiter buckets) may only bite when
+// the NEXT sessions overlap - neither a lone probe nor an overlap on a fresh instance
+// gets there.
+func TestHistoryThenOverlap(t *testing.T) {
+	r := vlib.Open(prop)
+	var ic isoCase
+	if vlib.ReplayCase("TestHistoryThenOverlap", &ic) {
+		if err := checkIso(ic); err != nil {
+			r.Violation(t, "TestHistoryThenOverlap", ic, err.Error())
+		}
+		return
+	}
+	r.Rule("history then overlap: H in 1..6 earlier sessions run to completion one after another on a fresh instance, each ended as drawn (half-close / the protocol's own goodbye - ftp+smtp QUIT, telnet ^D or exit, ldap unbind, redis QUIT, memcached quit, http Connection: close - / abort), then 2-3 sessions in a drawn interleaving of their steps (same grammar, shared vocabulary, drawn address families incl. IPv6); oracle = every session's bytes and events equal those of the same session alone on a fresh instance, one session id per connection; non-trivial = >=1 ended earlier session and >=1 alternation among the overlapping ones")
+	r.Rapid(t, "TestHistoryThenOverlap", r.Pick(45, 450), func(rt *rapid.T) {
+		service := rapid.SampledFrom(services).Draw(rt, "service")
+		key, udp := transport(service)
+		c := isoCase{Service: key, UDP: udp, PortSpread: rapid.IntRange(0, 1).Draw(rt, "portspread")}
+		h := rapid.OneOf(rapid.IntRange(1, 2), rapid.IntRange(1, 6)).Draw(rt, "nhistory")
+		k := rapid.IntRange(2, 3).Draw(rt, "noverlap")
+		c.Prefix = h
+		c.Fams = genFams(rt, h+k)
+		c.EarlyClose = !udp && rapid.IntRange(0, 3).Draw(rt, "early-close") == 0
+		c.Shared = genShared(rt, service)
+		left := make([]int, h+k)
+		total := 0
+		for i := 0; i < h+k; i++ {
+			s := genSession(rt, service, i, c.Shared)
+			c.Sessions = append(c.Sessions, s)
+			if i < h {
+				for range s.Steps {
+					c.Order = append(c.Order, i)
+				}
+			} else {
+				left[i] = len(s.Steps)
+				total += len(s.Steps)
+			}
+		}
+		for n := 0; n < total; {
+			i := h + rapid.IntRange(0, k-1).Draw(rt, "pick")
+			if left[i] > 0 {
+				left[i]--
+				c.Order = append(c.Order, i)
+				n++
+			}
+		}
+		fp := ""
+		if alternations(c.Order[len(c.Order)-total:]) >= 1 {
+			fp = vlib.JSON(c)
+		}
+		r.Case("history-overlap/"+service, fp, func() interface{} {
+			return map[string]interface{}{"earlier_sessions": h, "overlapping": k, "order": c.Order, "last_steps": lastNames(c), "families": famLabel(c)}
+		})
+		countFams(r, "history-overlap", c)
+		if err := checkIso(c); err != nil {
+			if strings.HasPrefix(err.Error(), "infra:") {
+				rt.Fatalf("%v", err)
+			}
+			r.Fail(rt, "TestHistoryThenOverlap", c, "%v", err)
+		}
+	})
+}
+
+func lastNames(c isoCase) []string {
+	var out []string
+	for _, s := range c.Sessions {
+		n := ""
+		if len(s.Names) > 0 {
+			n = s.Names[len(s.Names)-1]
+		}
+		out = append(out, n+"/"+s.End)
+	}
+	return out
 }
